@@ -809,3 +809,28 @@ S('c19-handler-widened', ['C19'], [(LISTACT,
 S('c19-total-key-variant', ['C19'], [(SORTM,
   "    date_rankking = lambda x: (x.deletion_date is None, x.deletion_date)",
   "    import datetime\n    date_rankking = lambda x: x.deletion_date or datetime.datetime.max")], 'total key through a default')
+
+# ------------------------------------------------------------------ global behaviour-preserving variants
+ALL = ['C%02d' % i for i in range(1, 21)]
+S('global-line-shift', ALL, [
+  (FS, "import os\nimport shutil\nimport stat\n", "# reformatted\n\n\nimport os\n\nimport shutil\n\n\nimport stat\n\n"),
+  (TRASHER, "class Trasher(SingleTrasher):", "# moved\n\n\n\nclass Trasher(SingleTrasher):"),
+  (EMPTIER, "class Emptier:", "\n\n\n# shifted\nclass Emptier:"),
+  (RESTORER, "class Restorer:", "\n\n# shifted\n\nclass Restorer:"),
+  ('trashcli/trash_dirs_scanner.py', "class TrashDirsScanner:", "\n\n\n\n# shifted\nclass TrashDirsScanner:"),
+  (LISTACT, "class ListTrash:", "\n\n\n# shifted\nclass ListTrash:"),
+  ('trashcli/rm/rm_cmd.py', "class RmCmd:", "\n\n# shifted\nclass RmCmd:")],
+  'every line of the main files moves (comments / blank lines only)')
+S('global-rename-lexists', ['C01', 'C04', 'C05', 'C07', 'C16', 'C17', 'C18'], [
+  (TRASHER, "        if not self.fs.lexists(path):", "        if not self.fs.entry_exists(path):"),
+  ('trashcli/put/fs/real_fs.py', "    def lexists(selfs, path):\n        return os.path.lexists(path)",
+   "    def lexists(selfs, path):\n        return os.path.lexists(path)\n\n    def entry_exists(self, path):\n        return self.lexists(path)")],
+  'presence probe reached through a differently named wrapper')
+S('global-guard-as-method', ['C01', 'C16', 'C18'], [
+  (TRASHER, "        if should_skipped_by_specs(path):", "        if self._is_dot_entry(path):"),
+  (TRASHER, "    def trash_single(self,", "    def _is_dot_entry(self, path):\n        return should_skipped_by_specs(path)\n\n    def trash_single(self,")],
+  'dot-entry guard wrapped in a method')
+S('global-restorer-helper', ['C02', 'C06', 'C13', 'C15', 'C18', 'C08'], [
+  (RESTORER, "        self.write_fs.move(trashed_file.original_file, trashed_file.original_location)\n        self.write_fs.remove_file(trashed_file.info_file)",
+   "        self._bring_back(trashed_file)\n\n    def _bring_back(self, entry):\n        source, target = entry.original_file, entry.original_location\n        self.write_fs.move(source, target)\n        info = entry.info_file\n        self.write_fs.remove_file(info)")],
+  'restore effects extracted into a helper with locals')
